@@ -1,335 +1,882 @@
-// Copyright 2013 The Go Authors. All rights reserved.
-// Use of this source code is governed by a BSD-style
-// license that can be found in the LICENSE file.
-
 package interp
 
-// Emulated functions that we cannot interpret because they are
-// external or because they use "unsafe" or "reflect" operations.
+// Native implementations ("environment stubs") of functions that cannot be
+// interpreted from SSA because they bottom out in assembly, unsafe, reflect
+// or the runtime — and the scheduler-visible sync/time primitives.
+// Keys are ssa.Function.String() (of the generic origin for instantiations).
 
 import (
-	"bytes"
-	"maps"
+	"fmt"
+	"go/token"
+	"go/types"
 	"math"
-	"os"
-	"runtime"
-	"slices"
 	"sort"
 	"strconv"
 	"strings"
-	"time"
 	"unicode/utf8"
+	"unsafe"
+
+	"golang.org/x/tools/go/ssa"
 )
 
 type externalFn func(fr *frame, args []value) value
 
-// TODO(adonovan): fix: reflect.Value abstracts an lvalue or an
-// rvalue; Set() causes mutations that can be observed via aliases.
-// We have not captured that correctly here.
-
-// Key strings are from Function.String().
 var externals = make(map[string]externalFn)
 
+func reg(name string, fn externalFn) { externals[name] = fn }
+
+func bytesOf(v value) []byte {
+	x := v.([]value)
+	b := make([]byte, len(x))
+	for i := range x {
+		b[i] = concrete(x[i]).(byte)
+	}
+	return b
+}
+
+func valuesOfBytes(b []byte) []value {
+	if b == nil {
+		return nil
+	}
+	r := make([]value, len(b))
+	for i := range b {
+		r[i] = b[i]
+	}
+	return r
+}
+
+func fieldPtr(p *value, i int) *value { return &(*p).(structure)[i] }
+
+func nop(fr *frame, args []value) value { return nil }
+
 func init() {
-	// That little dot ۰ is an Arabic zero numeral (U+06F0), categories [Nd].
-	maps.Copy(externals, map[string]externalFn{
-		"(reflect.Value).Bool":            ext۰reflect۰Value۰Bool,
-		"(reflect.Value).CanAddr":         ext۰reflect۰Value۰CanAddr,
-		"(reflect.Value).CanInterface":    ext۰reflect۰Value۰CanInterface,
-		"(reflect.Value).Elem":            ext۰reflect۰Value۰Elem,
-		"(reflect.Value).Field":           ext۰reflect۰Value۰Field,
-		"(reflect.Value).Float":           ext۰reflect۰Value۰Float,
-		"(reflect.Value).Index":           ext۰reflect۰Value۰Index,
-		"(reflect.Value).Int":             ext۰reflect۰Value۰Int,
-		"(reflect.Value).Interface":       ext۰reflect۰Value۰Interface,
-		"(reflect.Value).IsNil":           ext۰reflect۰Value۰IsNil,
-		"(reflect.Value).IsValid":         ext۰reflect۰Value۰IsValid,
-		"(reflect.Value).Kind":            ext۰reflect۰Value۰Kind,
-		"(reflect.Value).Len":             ext۰reflect۰Value۰Len,
-		"(reflect.Value).MapIndex":        ext۰reflect۰Value۰MapIndex,
-		"(reflect.Value).MapKeys":         ext۰reflect۰Value۰MapKeys,
-		"(reflect.Value).NumField":        ext۰reflect۰Value۰NumField,
-		"(reflect.Value).NumMethod":       ext۰reflect۰Value۰NumMethod,
-		"(reflect.Value).Pointer":         ext۰reflect۰Value۰Pointer,
-		"(reflect.Value).Set":             ext۰reflect۰Value۰Set,
-		"(reflect.Value).String":          ext۰reflect۰Value۰String,
-		"(reflect.Value).Type":            ext۰reflect۰Value۰Type,
-		"(reflect.Value).Uint":            ext۰reflect۰Value۰Uint,
-		"(reflect.error).Error":           ext۰reflect۰error۰Error,
-		"(reflect.rtype).Bits":            ext۰reflect۰rtype۰Bits,
-		"(reflect.rtype).Elem":            ext۰reflect۰rtype۰Elem,
-		"(reflect.rtype).Field":           ext۰reflect۰rtype۰Field,
-		"(reflect.rtype).In":              ext۰reflect۰rtype۰In,
-		"(reflect.rtype).Kind":            ext۰reflect۰rtype۰Kind,
-		"(reflect.rtype).NumField":        ext۰reflect۰rtype۰NumField,
-		"(reflect.rtype).NumIn":           ext۰reflect۰rtype۰NumIn,
-		"(reflect.rtype).NumMethod":       ext۰reflect۰rtype۰NumMethod,
-		"(reflect.rtype).NumOut":          ext۰reflect۰rtype۰NumOut,
-		"(reflect.rtype).Out":             ext۰reflect۰rtype۰Out,
-		"(reflect.rtype).Size":            ext۰reflect۰rtype۰Size,
-		"(reflect.rtype).String":          ext۰reflect۰rtype۰String,
-		"bytes.Equal":                     ext۰bytes۰Equal,
-		"bytes.IndexByte":                 ext۰bytes۰IndexByte,
-		"fmt.Sprint":                      ext۰fmt۰Sprint,
-		"math.Abs":                        ext۰math۰Abs,
-		"math.Copysign":                   ext۰math۰Copysign,
-		"math.Exp":                        ext۰math۰Exp,
-		"math.Float32bits":                ext۰math۰Float32bits,
-		"math.Float32frombits":            ext۰math۰Float32frombits,
-		"math.Float64bits":                ext۰math۰Float64bits,
-		"math.Float64frombits":            ext۰math۰Float64frombits,
-		"math.Inf":                        ext۰math۰Inf,
-		"math.IsNaN":                      ext۰math۰IsNaN,
-		"math.Ldexp":                      ext۰math۰Ldexp,
-		"math.Log":                        ext۰math۰Log,
-		"math.Min":                        ext۰math۰Min,
-		"math.NaN":                        ext۰math۰NaN,
-		"math.Sqrt":                       ext۰math۰Sqrt,
-		"os.Exit":                         ext۰os۰Exit,
-		"os.Getenv":                       ext۰os۰Getenv,
-		"reflect.New":                     ext۰reflect۰New,
-		"reflect.SliceOf":                 ext۰reflect۰SliceOf,
-		"reflect.TypeOf":                  ext۰reflect۰TypeOf,
-		"reflect.ValueOf":                 ext۰reflect۰ValueOf,
-		"reflect.Zero":                    ext۰reflect۰Zero,
-		"runtime.Breakpoint":              ext۰runtime۰Breakpoint,
-		"runtime.GC":                      ext۰runtime۰GC,
-		"runtime.GOMAXPROCS":              ext۰runtime۰GOMAXPROCS,
-		"runtime.GOROOT":                  ext۰runtime۰GOROOT,
-		"runtime.Goexit":                  ext۰runtime۰Goexit,
-		"runtime.Gosched":                 ext۰runtime۰Gosched,
-		"runtime.NumCPU":                  ext۰runtime۰NumCPU,
-		"sort.Float64s":                   ext۰sort۰Float64s,
-		"sort.Ints":                       ext۰sort۰Ints,
-		"sort.Strings":                    ext۰sort۰Strings,
-		"strconv.Atoi":                    ext۰strconv۰Atoi,
-		"strconv.Itoa":                    ext۰strconv۰Itoa,
-		"strconv.FormatFloat":             ext۰strconv۰FormatFloat,
-		"strings.Count":                   ext۰strings۰Count,
-		"strings.EqualFold":               ext۰strings۰EqualFold,
-		"strings.Index":                   ext۰strings۰Index,
-		"strings.IndexByte":               ext۰strings۰IndexByte,
-		"strings.Replace":                 ext۰strings۰Replace,
-		"strings.ToLower":                 ext۰strings۰ToLower,
-		"time.Sleep":                      ext۰time۰Sleep,
-		"unicode/utf8.DecodeRuneInString": ext۰unicode۰utf8۰DecodeRuneInString,
+	// ---- internal/bytealg (assembly) ----
+	reg("internal/bytealg.IndexByte", func(fr *frame, a []value) value {
+		c := concrete(a[1]).(byte)
+		for i, b := range a[0].([]value) {
+			if concrete(b).(byte) == c {
+				return i
+			}
+		}
+		return -1
+	})
+	reg("internal/bytealg.IndexByteString", func(fr *frame, a []value) value {
+		return strings.IndexByte(a[0].(string), concrete(a[1]).(byte))
+	})
+	reg("internal/bytealg.Count", func(fr *frame, a []value) value {
+		c := concrete(a[1]).(byte)
+		n := 0
+		for _, b := range a[0].([]value) {
+			if concrete(b).(byte) == c {
+				n++
+			}
+		}
+		return n
+	})
+	reg("internal/bytealg.CountString", func(fr *frame, a []value) value {
+		return strings.Count(a[0].(string), string([]byte{concrete(a[1]).(byte)}))
+	})
+	reg("internal/bytealg.Compare", func(fr *frame, a []value) value {
+		return strings.Compare(string(bytesOf(a[0])), string(bytesOf(a[1])))
+	})
+	reg("internal/bytealg.CompareString", func(fr *frame, a []value) value {
+		return strings.Compare(a[0].(string), a[1].(string))
+	})
+	reg("internal/bytealg.Equal", func(fr *frame, a []value) value {
+		return string(bytesOf(a[0])) == string(bytesOf(a[1]))
+	})
+	reg("internal/bytealg.Index", func(fr *frame, a []value) value {
+		return strings.Index(string(bytesOf(a[0])), string(bytesOf(a[1])))
+	})
+	reg("internal/bytealg.IndexString", func(fr *frame, a []value) value {
+		return strings.Index(a[0].(string), a[1].(string))
+	})
+	reg("internal/bytealg.LastIndexByte", func(fr *frame, a []value) value {
+		return strings.LastIndexByte(string(bytesOf(a[0])), concrete(a[1]).(byte))
+	})
+	reg("internal/bytealg.LastIndexByteString", func(fr *frame, a []value) value {
+		return strings.LastIndexByte(a[0].(string), concrete(a[1]).(byte))
+	})
+	reg("internal/bytealg.MakeNoZero", func(fr *frame, a []value) value {
+		n := int(asInt64(a[0]))
+		r := make([]value, n)
+		for i := range r {
+			r[i] = byte(0)
+		}
+		return r
+	})
+	reg("internal/stringslite.Index", func(fr *frame, a []value) value {
+		return strings.Index(a[0].(string), a[1].(string))
+	})
+	reg("strings.Index", func(fr *frame, a []value) value { return strings.Index(a[0].(string), a[1].(string)) })
+	reg("strings.IndexByte", func(fr *frame, a []value) value {
+		return strings.IndexByte(a[0].(string), concrete(a[1]).(byte))
+	})
+	reg("strings.Count", func(fr *frame, a []value) value { return strings.Count(a[0].(string), a[1].(string)) })
+	reg("strings.EqualFold", func(fr *frame, a []value) value { return strings.EqualFold(a[0].(string), a[1].(string)) })
+	reg("strings.ToLower", func(fr *frame, a []value) value { return strings.ToLower(a[0].(string)) })
+	reg("strings.ToUpper", func(fr *frame, a []value) value { return strings.ToUpper(a[0].(string)) })
+	reg("strings.Replace", func(fr *frame, a []value) value {
+		return strings.Replace(a[0].(string), a[1].(string), a[2].(string), a[3].(int))
+	})
+	reg("strings.Clone", func(fr *frame, a []value) value { return a[0] })
+	reg("unique.Make", nil)
+	delete(externals, "unique.Make")
+	reg("bytes.Equal", func(fr *frame, a []value) value {
+		x, y := a[0].([]value), a[1].([]value)
+		if len(x) != len(y) {
+			return false
+		}
+		for i := range x {
+			if !equals(types.Typ[types.Uint8], x[i], y[i]) {
+				return false
+			}
+		}
+		return true
+	})
+
+	// ---- math ----
+	reg("math.Float64frombits", func(fr *frame, a []value) value { return math.Float64frombits(concrete(a[0]).(uint64)) })
+	reg("math.Float64bits", func(fr *frame, a []value) value { return math.Float64bits(a[0].(float64)) })
+	reg("math.Float32frombits", func(fr *frame, a []value) value { return math.Float32frombits(concrete(a[0]).(uint32)) })
+	reg("math.Float32bits", func(fr *frame, a []value) value { return math.Float32bits(a[0].(float32)) })
+	reg("math.Abs", func(fr *frame, a []value) value { return math.Abs(a[0].(float64)) })
+	reg("math.Copysign", func(fr *frame, a []value) value { return math.Copysign(a[0].(float64), a[1].(float64)) })
+	reg("math.Exp", func(fr *frame, a []value) value { return math.Exp(a[0].(float64)) })
+	reg("math.Min", func(fr *frame, a []value) value { return math.Min(a[0].(float64), a[1].(float64)) })
+	reg("math.Max", func(fr *frame, a []value) value { return math.Max(a[0].(float64), a[1].(float64)) })
+	reg("math.NaN", func(fr *frame, a []value) value { return math.NaN() })
+	reg("math.IsNaN", func(fr *frame, a []value) value { return math.IsNaN(a[0].(float64)) })
+	reg("math.IsInf", func(fr *frame, a []value) value { return math.IsInf(a[0].(float64), a[1].(int)) })
+	reg("math.Inf", func(fr *frame, a []value) value { return math.Inf(a[0].(int)) })
+	reg("math.Ldexp", func(fr *frame, a []value) value { return math.Ldexp(a[0].(float64), a[1].(int)) })
+	reg("math.Log", func(fr *frame, a []value) value { return math.Log(a[0].(float64)) })
+	reg("math.Log2", func(fr *frame, a []value) value { return math.Log2(a[0].(float64)) })
+	reg("math.Sqrt", func(fr *frame, a []value) value { return math.Sqrt(a[0].(float64)) })
+	reg("math.Floor", func(fr *frame, a []value) value { return math.Floor(a[0].(float64)) })
+	reg("math.Ceil", func(fr *frame, a []value) value { return math.Ceil(a[0].(float64)) })
+	reg("math.Trunc", func(fr *frame, a []value) value { return math.Trunc(a[0].(float64)) })
+	reg("math.Pow", func(fr *frame, a []value) value { return math.Pow(a[0].(float64), a[1].(float64)) })
+	reg("math.Modf", func(fr *frame, a []value) value {
+		i, f := math.Modf(a[0].(float64))
+		return tuple{i, f}
+	})
+
+	// ---- strconv / sort / utf8 (speed) ----
+	reg("strconv.Itoa", func(fr *frame, a []value) value { return strconv.Itoa(concrete(a[0]).(int)) })
+	reg("strconv.FormatInt", func(fr *frame, a []value) value {
+		return strconv.FormatInt(concrete(a[0]).(int64), a[1].(int))
+	})
+	reg("strconv.FormatUint", func(fr *frame, a []value) value {
+		return strconv.FormatUint(concrete(a[0]).(uint64), a[1].(int))
+	})
+	reg("strconv.FormatFloat", func(fr *frame, a []value) value {
+		return strconv.FormatFloat(a[0].(float64), a[1].(byte), a[2].(int), a[3].(int))
+	})
+	reg("strconv.Quote", func(fr *frame, a []value) value { return strconv.Quote(a[0].(string)) })
+	reg("sort.Ints", func(fr *frame, a []value) value {
+		x := a[0].([]value)
+		sort.Slice(x, func(i, j int) bool { return x[i].(int) < x[j].(int) })
+		return nil
+	})
+	reg("sort.Strings", func(fr *frame, a []value) value {
+		x := a[0].([]value)
+		sort.Slice(x, func(i, j int) bool { return x[i].(string) < x[j].(string) })
+		return nil
+	})
+	sortSlice := func(stable bool) externalFn {
+		return func(fr *frame, a []value) value {
+			itf := a[0].(iface)
+			x, _ := itf.v.([]value)
+			less := a[1]
+			cmp := func(i, j int) bool {
+				return fr.w.concreteBool(call(fr.w, fr, token.NoPos, less, []value{i, j}))
+			}
+			// insertion sort driven by index comparisons (less refers to
+			// the live slice, so swap in place like reflect.Swapper).
+			for i := 1; i < len(x); i++ {
+				for j := i; j > 0 && cmp(j, j-1); j-- {
+					x[j], x[j-1] = x[j-1], x[j]
+				}
+			}
+			return nil
+		}
+	}
+	reg("sort.Slice", sortSlice(false))
+	reg("sort.SliceStable", sortSlice(true))
+	reg("unicode/utf8.DecodeRuneInString", func(fr *frame, a []value) value {
+		r, n := utf8.DecodeRuneInString(a[0].(string))
+		return tuple{r, n}
+	})
+
+	// ---- runtime / os / debug ----
+	reg("runtime.GOMAXPROCS", func(fr *frame, a []value) value { return 1 })
+	reg("runtime.NumCPU", func(fr *frame, a []value) value { return 1 })
+	reg("runtime.NumGoroutine", func(fr *frame, a []value) value { return 1 })
+	reg("runtime.GC", nop)
+	reg("runtime.KeepAlive", nop)
+	reg("runtime.SetFinalizer", nop)
+	reg("runtime.Gosched", func(fr *frame, a []value) value { fr.w.yield(); return nil })
+	reg("runtime.Goexit", func(fr *frame, a []value) value { panic(unsupported("runtime.Goexit")) })
+	reg("runtime.Caller", func(fr *frame, a []value) value { return tuple{uintptr(0), "", 0, false} })
+	reg("runtime.Callers", func(fr *frame, a []value) value { return 0 })
+	reg("runtime.Stack", func(fr *frame, a []value) value { return 0 })
+	reg("runtime/debug.Stack", func(fr *frame, a []value) value { return valuesOfBytes([]byte("<stack>")) })
+	reg("runtime/debug.PrintStack", nop)
+	reg("os.Getenv", func(fr *frame, a []value) value { return "" })
+	reg("os.LookupEnv", func(fr *frame, a []value) value { return tuple{"", false} })
+	reg("os.Exit", func(fr *frame, a []value) value {
+		panic(pathEnd{oCrash, fmt.Sprintf("os.Exit(%v)", a[0])})
+	})
+	reg("log.Printf", nop)
+	reg("log.Println", nop)
+	reg("log.Print", nop)
+
+	// ---- sync ----
+	reg("(*sync.Mutex).Lock", func(fr *frame, a []value) value { fr.w.lock(a[0].(*value)); return nil })
+	reg("(*sync.Mutex).Unlock", func(fr *frame, a []value) value { fr.w.unlock(a[0].(*value)); return nil })
+	reg("(*sync.Mutex).TryLock", func(fr *frame, a []value) value { return fr.w.tryLock(a[0].(*value)) })
+	reg("(*sync.RWMutex).Lock", func(fr *frame, a []value) value { fr.w.lock(a[0].(*value)); return nil })
+	reg("(*sync.RWMutex).Unlock", func(fr *frame, a []value) value { fr.w.unlock(a[0].(*value)); return nil })
+	reg("(*sync.RWMutex).RLock", func(fr *frame, a []value) value { fr.w.rlock(a[0].(*value)); return nil })
+	reg("(*sync.RWMutex).RUnlock", func(fr *frame, a []value) value { fr.w.runlock(a[0].(*value)); return nil })
+	reg("(*sync.WaitGroup).Add", func(fr *frame, a []value) value {
+		w := fr.w
+		g := w.wgOf(a[0].(*value))
+		g.n += asInt64(a[1])
+		if g.n < 0 {
+			panic(targetPanic{iface{t: types.Typ[types.String], v: "sync: negative WaitGroup counter"}})
+		}
+		if g.n == 0 {
+			for _, x := range g.waitq {
+				w.makeRunnable(x)
+			}
+			g.waitq = nil
+		}
+		return nil
+	})
+	reg("(*sync.WaitGroup).Done", func(fr *frame, a []value) value {
+		return externals["(*sync.WaitGroup).Add"](fr, []value{a[0], int(-1)})
+	})
+	reg("(*sync.WaitGroup).Wait", func(fr *frame, a []value) value {
+		w := fr.w
+		w.maybePreempt()
+		g := w.wgOf(a[0].(*value))
+		if g.n == 0 {
+			return nil
+		}
+		g.waitq = append(g.waitq, w.sched.cur)
+		w.park("WaitGroup.Wait")
+		return nil
+	})
+	reg("(*sync.WaitGroup).Go", func(fr *frame, a []value) value {
+		w := fr.w
+		externals["(*sync.WaitGroup).Add"](fr, []value{a[0], int(1)})
+		f := a[1]
+		wgp := a[0]
+		w.spawn(&nativeFn{name: "wg.Go", fn: func(fr2 *frame, _ []value) value {
+			defer externals["(*sync.WaitGroup).Add"](fr2, []value{wgp, int(-1)})
+			call(fr2.w, fr2, token.NoPos, f, nil)
+			return nil
+		}}, nil, token.NoPos, false, "wg.Go")
+		return nil
+	})
+	reg("(*sync.Once).Do", func(fr *frame, a []value) value {
+		w := fr.w
+		o := w.onceOf(a[0].(*value))
+		if o.done {
+			return nil
+		}
+		if o.running {
+			o.waitq = append(o.waitq, w.sched.cur)
+			w.park("Once.Do")
+			return nil
+		}
+		o.running = true
+		defer func() {
+			o.running = false
+			o.done = true
+			for _, g := range o.waitq {
+				w.makeRunnable(g)
+			}
+			o.waitq = nil
+		}()
+		call(w, fr, token.NoPos, a[1], nil)
+		return nil
+	})
+	reg("(*sync.Cond).Wait", func(fr *frame, a []value) value {
+		w := fr.w
+		p := a[0].(*value)
+		c := w.condOf(p)
+		L := (*fieldPtr(p, 1)).(iface) // noCopy, L, notify, checker
+		w.callMethod(fr, L, "Unlock")
+		c.waitq = append(c.waitq, w.sched.cur)
+		w.park("Cond.Wait")
+		w.callMethod(fr, L, "Lock")
+		return nil
+	})
+	reg("(*sync.Cond).Signal", func(fr *frame, a []value) value {
+		w := fr.w
+		c := w.condOf(a[0].(*value))
+		if len(c.waitq) > 0 {
+			g := c.waitq[0]
+			c.waitq = c.waitq[1:]
+			w.makeRunnable(g)
+		}
+		return nil
+	})
+	reg("(*sync.Cond).Broadcast", func(fr *frame, a []value) value {
+		w := fr.w
+		c := w.condOf(a[0].(*value))
+		for _, g := range c.waitq {
+			w.makeRunnable(g)
+		}
+		c.waitq = nil
+		return nil
+	})
+	reg("(*sync.Pool).Get", func(fr *frame, a []value) value {
+		p := a[0].(*value)
+		st := (*p).(structure)
+		newFn := st[len(st)-1]
+		if f, ok := newFn.(*ssa.Function); ok && f == nil {
+			return iface{}
+		}
+		return call(fr.w, fr, token.NoPos, newFn, nil)
+	})
+	reg("(*sync.Pool).Put", nop)
+
+	// ---- sync/atomic ----
+	for _, k := range []string{"Int32", "Int64", "Uint32", "Uint64", "Uintptr"} {
+		reg("sync/atomic.Load"+k, func(fr *frame, a []value) value { return *a[0].(*value) })
+		reg("sync/atomic.Store"+k, func(fr *frame, a []value) value { *a[0].(*value) = a[1]; return nil })
+		reg("sync/atomic.Add"+k, func(fr *frame, a []value) value {
+			p := a[0].(*value)
+			*p = binop(token.ADD, nil, *p, a[1])
+			return *p
+		})
+		reg("sync/atomic.Swap"+k, func(fr *frame, a []value) value {
+			p := a[0].(*value)
+			old := *p
+			*p = a[1]
+			return old
+		})
+		reg("sync/atomic.CompareAndSwap"+k, func(fr *frame, a []value) value {
+			p := a[0].(*value)
+			if equals(nil, *p, a[1]) {
+				*p = a[2]
+				return true
+			}
+			return false
+		})
+		reg("sync/atomic.And"+k, func(fr *frame, a []value) value {
+			p := a[0].(*value)
+			old := *p
+			*p = binop(token.AND, nil, *p, a[1])
+			return old
+		})
+		reg("sync/atomic.Or"+k, func(fr *frame, a []value) value {
+			p := a[0].(*value)
+			old := *p
+			*p = binop(token.OR, nil, *p, a[1])
+			return old
+		})
+	}
+	// atomic.Value: struct{ v any }
+	reg("(*sync/atomic.Value).Load", func(fr *frame, a []value) value { return *fieldPtr(a[0].(*value), 0) })
+	reg("(*sync/atomic.Value).Store", func(fr *frame, a []value) value {
+		if a[1].(iface).t == nil {
+			panic(targetPanic{iface{t: types.Typ[types.String], v: "sync/atomic: store of nil value into Value"}})
+		}
+		*fieldPtr(a[0].(*value), 0) = a[1]
+		return nil
+	})
+	reg("(*sync/atomic.Value).Swap", func(fr *frame, a []value) value {
+		p := fieldPtr(a[0].(*value), 0)
+		old := *p
+		*p = a[1]
+		return old
+	})
+	reg("(*sync/atomic.Value).CompareAndSwap", func(fr *frame, a []value) value {
+		p := fieldPtr(a[0].(*value), 0)
+		if equals(types.NewInterfaceType(nil, nil), *p, a[1]) {
+			*p = a[2]
+			return true
+		}
+		return false
+	})
+	// atomic.Pointer[T]: struct{ _ [0]*T; _ noCopy; v unsafe.Pointer }
+	ptrLoad := func(p *value) value {
+		v := *fieldPtr(p, 2)
+		if _, ok := v.(unsafe.Pointer); ok {
+			return (*value)(nil)
+		}
+		return v
+	}
+	reg("(*sync/atomic.Pointer[T]).Load", func(fr *frame, a []value) value { return ptrLoad(a[0].(*value)) })
+	reg("(*sync/atomic.Pointer[T]).Store", func(fr *frame, a []value) value {
+		*fieldPtr(a[0].(*value), 2) = a[1]
+		return nil
+	})
+	reg("(*sync/atomic.Pointer[T]).Swap", func(fr *frame, a []value) value {
+		old := ptrLoad(a[0].(*value))
+		*fieldPtr(a[0].(*value), 2) = a[1]
+		return old
+	})
+	reg("(*sync/atomic.Pointer[T]).CompareAndSwap", func(fr *frame, a []value) value {
+		if ptrLoad(a[0].(*value)).(*value) == a[1].(*value) {
+			*fieldPtr(a[0].(*value), 2) = a[2]
+			return true
+		}
+		return false
+	})
+
+	// ---- strings.Builder: struct{ addr *Builder; buf []byte } ----
+	sbBuf := func(a []value) *value { return fieldPtr(a[0].(*value), 1) }
+	reg("(*strings.Builder).String", func(fr *frame, a []value) value {
+		b, _ := (*sbBuf(a)).([]value)
+		return string(bytesOf(b))
+	})
+	reg("(*strings.Builder).Len", func(fr *frame, a []value) value {
+		b, _ := (*sbBuf(a)).([]value)
+		return len(b)
+	})
+	reg("(*strings.Builder).Cap", func(fr *frame, a []value) value {
+		b, _ := (*sbBuf(a)).([]value)
+		return cap(b)
+	})
+	reg("(*strings.Builder).Reset", func(fr *frame, a []value) value { *sbBuf(a) = []value(nil); return nil })
+	reg("(*strings.Builder).Grow", nop)
+	reg("(*strings.Builder).Write", func(fr *frame, a []value) value {
+		p := sbBuf(a)
+		b, _ := (*p).([]value)
+		*p = append(b, a[1].([]value)...)
+		return tuple{len(a[1].([]value)), iface{}}
+	})
+	reg("(*strings.Builder).WriteByte", func(fr *frame, a []value) value {
+		p := sbBuf(a)
+		b, _ := (*p).([]value)
+		*p = append(b, a[1])
+		return iface{}
+	})
+	reg("(*strings.Builder).WriteRune", func(fr *frame, a []value) value {
+		p := sbBuf(a)
+		b, _ := (*p).([]value)
+		s := string(concrete(a[1]).(rune))
+		*p = append(b, valuesOfBytes([]byte(s))...)
+		return tuple{len(s), iface{}}
+	})
+	reg("(*strings.Builder).WriteString", func(fr *frame, a []value) value {
+		p := sbBuf(a)
+		b, _ := (*p).([]value)
+		s := a[1].(string)
+		*p = append(b, valuesOfBytes([]byte(s))...)
+		return tuple{len(s), iface{}}
+	})
+
+	// ---- fmt ----
+	reg("fmt.Sprintf", func(fr *frame, a []value) value {
+		return fmt.Sprintf(a[0].(string), fr.w.fmtArgs(fr, a[1])...)
+	})
+	reg("fmt.Sprint", func(fr *frame, a []value) value { return fmt.Sprint(fr.w.fmtArgs(fr, a[0])...) })
+	reg("fmt.Sprintln", func(fr *frame, a []value) value { return fmt.Sprintln(fr.w.fmtArgs(fr, a[0])...) })
+	reg("fmt.Printf", func(fr *frame, a []value) value { return tuple{0, iface{}} })
+	reg("fmt.Println", func(fr *frame, a []value) value { return tuple{0, iface{}} })
+	reg("fmt.Print", func(fr *frame, a []value) value { return tuple{0, iface{}} })
+	reg("fmt.Fprintf", func(fr *frame, a []value) value {
+		s := fmt.Sprintf(a[1].(string), fr.w.fmtArgs(fr, a[2])...)
+		return fr.w.writeTo(fr, a[0].(iface), s)
+	})
+	reg("fmt.Fprint", func(fr *frame, a []value) value {
+		return fr.w.writeTo(fr, a[0].(iface), fmt.Sprint(fr.w.fmtArgs(fr, a[1])...))
+	})
+	reg("fmt.Fprintln", func(fr *frame, a []value) value {
+		return fr.w.writeTo(fr, a[0].(iface), fmt.Sprintln(fr.w.fmtArgs(fr, a[1])...))
+	})
+	reg("fmt.Errorf", func(fr *frame, a []value) value {
+		w := fr.w
+		format := a[0].(string)
+		raw, _ := a[1].([]value)
+		msg := fmt.Sprintf(strings.ReplaceAll(format, "%w", "%v"), w.fmtArgs(fr, a[1])...)
+		// find the operand of the first %w
+		if idx := wrapVerbIndex(format); idx >= 0 && idx < len(raw) && w.p.fmtWrapError != nil {
+			if e, ok := raw[idx].(iface); ok && e.t != nil {
+				st := value(structure{msg, e})
+				return iface{t: types.NewPointer(w.p.fmtWrapError), v: &st}
+			}
+		}
+		return w.newError(msg)
+	})
+
+	// ---- errors ----
+	reg("errors.Is", func(fr *frame, a []value) value { return fr.w.errorsIs(fr, a[0].(iface), a[1].(iface)) })
+	reg("errors.As", func(fr *frame, a []value) value { return fr.w.errorsAs(fr, a[0].(iface), a[1].(iface)) })
+
+	// ---- time ----
+	reg("time.Now", func(fr *frame, a []value) value { return fr.w.timeNow() })
+	reg("time.Since", func(fr *frame, a []value) value { return fr.w.sched.now - timeNs(a[0]) })
+	reg("time.Until", func(fr *frame, a []value) value { return timeNs(a[0]) - fr.w.sched.now })
+	reg("time.Sleep", func(fr *frame, a []value) value {
+		w := fr.w
+		g := w.sched.cur
+		w.addTimer(asInt64(a[0]), 0, func() { w.makeRunnable(g) })
+		w.park("time.Sleep")
+		return nil
+	})
+	reg("time.After", func(fr *frame, a []value) value {
+		w := fr.w
+		c := w.newChan(1)
+		w.addTimer(asInt64(a[0]), 0, func() {
+			if len(c.buf) < c.cap || hasWaiter(c.recvq) {
+				w.doSend(c, w.timeNow())
+			}
+		})
+		return c
+	})
+	reg("time.Tick", func(fr *frame, a []value) value {
+		w := fr.w
+		c := w.newChan(1)
+		d := asInt64(a[0])
+		w.addTimer(d, d, func() {
+			if len(c.buf) < c.cap || hasWaiter(c.recvq) {
+				w.doSend(c, w.timeNow())
+			}
+		})
+		return c
+	})
+	newTimerObj := func(fr *frame, d int64, period int64) value {
+		w := fr.w
+		c := w.newChan(1)
+		// Timer and Ticker: struct{ C <-chan Time; init bool }
+		st := value(structure{c, true})
+		p := &st
+		t := w.addTimer(d, period, func() {
+			if len(c.buf) < c.cap || hasWaiter(c.recvq) {
+				w.doSend(c, w.timeNow())
+			}
+		})
+		w.timerObjs()[p] = t
+		return p
+	}
+	reg("time.NewTimer", func(fr *frame, a []value) value { return newTimerObj(fr, asInt64(a[0]), 0) })
+	reg("time.NewTicker", func(fr *frame, a []value) value {
+		d := asInt64(a[0])
+		if d <= 0 {
+			panic(targetPanic{iface{t: types.Typ[types.String], v: "non-positive interval for NewTicker"}})
+		}
+		return newTimerObj(fr, d, d)
+	})
+	reg("time.AfterFunc", func(fr *frame, a []value) value {
+		w := fr.w
+		f := a[1]
+		st := value(structure{(*chanObj)(nil), true})
+		p := &st
+		t := w.addTimer(asInt64(a[0]), 0, func() {
+			w.spawn(f, nil, token.NoPos, false, "time.AfterFunc")
+		})
+		w.timerObjs()[p] = t
+		return p
+	})
+	stopTimer := func(fr *frame, a []value) value {
+		t := fr.w.timerObjs()[a[0].(*value)]
+		if t == nil {
+			return false
+		}
+		was := !t.stopped
+		t.stopped = true
+		return was
+	}
+	reg("(*time.Timer).Stop", stopTimer)
+	reg("(*time.Ticker).Stop", func(fr *frame, a []value) value { stopTimer(fr, a); return nil })
+	reg("(*time.Timer).Reset", func(fr *frame, a []value) value {
+		w := fr.w
+		t := w.timerObjs()[a[0].(*value)]
+		if t == nil {
+			return false
+		}
+		was := !t.stopped
+		t.stopped = true
+		nt := w.addTimer(asInt64(a[1]), 0, t.fire)
+		w.timerObjs()[a[0].(*value)] = nt
+		return was
+	})
+	reg("(*time.Ticker).Reset", func(fr *frame, a []value) value {
+		w := fr.w
+		t := w.timerObjs()[a[0].(*value)]
+		if t == nil {
+			return nil
+		}
+		t.stopped = true
+		d := asInt64(a[1])
+		nt := w.addTimer(d, d, t.fire)
+		w.timerObjs()[a[0].(*value)] = nt
+		return nil
+	})
+	reg("(time.Time).String", func(fr *frame, a []value) value { return fmt.Sprintf("T+%dns", timeNs(a[0])) })
+	reg("(time.Duration).String", func(fr *frame, a []value) value { return fmt.Sprintf("%dns", asInt64(a[0])) })
+
+	// ---- misc third-party leaf functions ----
+	reg("github.com/google/uuid.New", func(fr *frame, a []value) value { return fr.w.freshUUID() })
+	reg("github.com/google/uuid.NewRandom", func(fr *frame, a []value) value { return tuple{fr.w.freshUUID(), iface{}} })
+	reg("github.com/google/uuid.Must", func(fr *frame, a []value) value {
+		if e := a[1].(iface); e.t != nil {
+			panic(targetPanic{e})
+		}
+		return a[0]
+	})
+	reg("(github.com/google/uuid.UUID).String", func(fr *frame, a []value) value {
+		return fmt.Sprintf("%x", bytesOf([]value(a[0].(array))))
+	})
+	reg("(github.com/ipfs/go-graphsync.RequestID).String", func(fr *frame, a []value) value {
+		return fmt.Sprintf("%x", []byte(a[0].(structure)[0].(string)))
+	})
+	reg("(github.com/ipfs/go-graphsync.RequestID).Tag", func(fr *frame, a []value) value {
+		return "graphsync-request-" + fmt.Sprintf("%x", []byte(a[0].(structure)[0].(string)))
+	})
+	reg("(github.com/libp2p/go-libp2p/core/peer.ID).String", func(fr *frame, a []value) value { return a[0] })
+	reg("(github.com/libp2p/go-libp2p/core/peer.ID).ShortString", func(fr *frame, a []value) value { return a[0] })
+	reg("(github.com/libp2p/go-libp2p/core/peer.ID).Loggable", func(fr *frame, a []value) value { return (*omap)(nil) })
+	reg("(github.com/ipfs/go-cid.Cid).String", func(fr *frame, a []value) value {
+		return fmt.Sprintf("cid:%x", []byte(a[0].(structure)[0].(string)))
 	})
 }
 
-func ext۰bytes۰Equal(fr *frame, args []value) value {
-	// func Equal(a, b []byte) bool
-	a := args[0].([]value)
-	b := args[1].([]value)
-	return slices.Equal(a, b)
-}
-
-func ext۰bytes۰IndexByte(fr *frame, args []value) value {
-	// func IndexByte(s []byte, c byte) int
-	s := args[0].([]value)
-	c := args[1].(byte)
-	for i, b := range s {
-		if b.(byte) == c {
-			return i
+// wrapVerbIndex returns the operand index consumed by the first %w in format.
+func wrapVerbIndex(format string) int {
+	idx := 0
+	for i := 0; i < len(format); i++ {
+		if format[i] != '%' {
+			continue
 		}
+		i++
+		for i < len(format) && strings.IndexByte("+-# 0123456789.", format[i]) >= 0 {
+			i++
+		}
+		if i >= len(format) {
+			break
+		}
+		if format[i] == '%' {
+			continue
+		}
+		if format[i] == 'w' {
+			return idx
+		}
+		idx++
 	}
 	return -1
 }
 
-func ext۰math۰Float64frombits(fr *frame, args []value) value {
-	return math.Float64frombits(args[0].(uint64))
+func (w *world) timerObjs() map[*value]*vtimer {
+	if w.sched.timerTab == nil {
+		w.sched.timerTab = make(map[*value]*vtimer)
+	}
+	return w.sched.timerTab
 }
 
-func ext۰math۰Float64bits(fr *frame, args []value) value {
-	return math.Float64bits(args[0].(float64))
+// time.Time is struct{ wall uint64; ext int64; loc *Location }.  Virtual
+// instants carry their nanosecond count in ext, wall = 0 (no monotonic flag).
+const timeBase = int64(1_000_000) // seconds since year 1 (arbitrary epoch)
+
+func (w *world) timeNow() value {
+	ns := w.sched.now
+	return structure{uint64(ns % 1_000_000_000), timeBase + ns/1_000_000_000, (*value)(nil)}
 }
 
-func ext۰math۰Float32frombits(fr *frame, args []value) value {
-	return math.Float32frombits(args[0].(uint32))
+func timeNs(t value) int64 {
+	st := t.(structure)
+	return (st[1].(int64)-timeBase)*1_000_000_000 + int64(st[0].(uint64)&((1<<30)-1))
 }
 
-func ext۰math۰Abs(fr *frame, args []value) value {
-	return math.Abs(args[0].(float64))
+func (w *world) freshUUID() value {
+	w.counter++
+	a := make(array, 16)
+	for i := range a {
+		a[i] = byte(0)
+	}
+	a[0] = byte(0xee)
+	a[6] = byte(0x40)
+	a[15] = byte(w.counter)
+	a[14] = byte(w.counter >> 8)
+	return a
 }
 
-func ext۰math۰Copysign(fr *frame, args []value) value {
-	return math.Copysign(args[0].(float64), args[1].(float64))
+func (w *world) newError(msg string) value {
+	st := value(structure{msg})
+	return iface{t: types.NewPointer(w.p.errorsErrorString), v: &st}
 }
 
-func ext۰math۰Exp(fr *frame, args []value) value {
-	return math.Exp(args[0].(float64))
+// callMethod invokes the named method on the dynamic value of itf.
+func (w *world) callMethod(fr *frame, itf iface, name string, args ...value) value {
+	if itf.t == nil {
+		panic("invalid memory address or nil pointer dereference (method on nil interface)")
+	}
+	fn := w.p.lookupMethodByName(itf.t, name)
+	if fn == nil {
+		panic(pathEnd{oEngine, fmt.Sprintf("no method %s on %s", name, itf.t)})
+	}
+	return call(w, fr, token.NoPos, fn, append([]value{itf.v}, args...))
 }
 
-func ext۰math۰Float32bits(fr *frame, args []value) value {
-	return math.Float32bits(args[0].(float32))
+func (w *world) hasMethod(t types.Type, name string) *ssa.Function {
+	if t == nil {
+		return nil
+	}
+	return w.p.lookupMethodByName(t, name)
 }
 
-func ext۰math۰Min(fr *frame, args []value) value {
-	return math.Min(args[0].(float64), args[1].(float64))
+// fmtArgs converts a []interface{} of the target into Go values for fmt.
+func (w *world) fmtArgs(fr *frame, v value) []any {
+	xs, _ := v.([]value)
+	out := make([]any, len(xs))
+	for i, x := range xs {
+		out[i] = w.fmtArg(fr, x)
+	}
+	return out
 }
 
-func ext۰math۰NaN(fr *frame, args []value) value {
-	return math.NaN()
-}
+type rawString string
 
-func ext۰math۰IsNaN(fr *frame, args []value) value {
-	return math.IsNaN(args[0].(float64))
-}
+func (r rawString) Format(f fmt.State, verb rune) { fmt.Fprint(f, string(r)) }
 
-func ext۰math۰Inf(fr *frame, args []value) value {
-	return math.Inf(args[0].(int))
-}
-
-func ext۰math۰Ldexp(fr *frame, args []value) value {
-	return math.Ldexp(args[0].(float64), args[1].(int))
-}
-
-func ext۰math۰Log(fr *frame, args []value) value {
-	return math.Log(args[0].(float64))
-}
-
-func ext۰math۰Sqrt(fr *frame, args []value) value {
-	return math.Sqrt(args[0].(float64))
-}
-
-func ext۰runtime۰Breakpoint(fr *frame, args []value) value {
-	runtime.Breakpoint()
-	return nil
-}
-
-func ext۰sort۰Ints(fr *frame, args []value) value {
-	x := args[0].([]value)
-	sort.Slice(x, func(i, j int) bool {
-		return x[i].(int) < x[j].(int)
-	})
-	return nil
-}
-func ext۰sort۰Strings(fr *frame, args []value) value {
-	x := args[0].([]value)
-	sort.Slice(x, func(i, j int) bool {
-		return x[i].(string) < x[j].(string)
-	})
-	return nil
-}
-func ext۰sort۰Float64s(fr *frame, args []value) value {
-	x := args[0].([]value)
-	sort.Slice(x, func(i, j int) bool {
-		return x[i].(float64) < x[j].(float64)
-	})
-	return nil
-}
-
-func ext۰strconv۰Atoi(fr *frame, args []value) value {
-	i, e := strconv.Atoi(args[0].(string))
-	if e != nil {
-		if fr.i.runtimeErrorString != nil {
-			return tuple{i, iface{fr.i.runtimeErrorString, e.Error()}}
+func (w *world) fmtArg(fr *frame, x value) any {
+	itf, ok := x.(iface)
+	if !ok {
+		return rawString(toString(x))
+	}
+	if itf.t == nil {
+		return nil
+	}
+	switch v := itf.v.(type) {
+	case bool, int, int8, int16, int32, int64, uint, uint8, uint16, uint32, uint64, uintptr, float32, float64, string:
+		// named types with Error/String methods take precedence
+		if _, isNamed := types.Unalias(itf.t).(*types.Named); !isNamed {
+			return v
 		}
-		return tuple{i, e.Error()}
-	}
-	return tuple{i, iface{}}
-}
-func ext۰strconv۰Itoa(fr *frame, args []value) value {
-	return strconv.Itoa(args[0].(int))
-}
-func ext۰strconv۰FormatFloat(fr *frame, args []value) value {
-	return strconv.FormatFloat(args[0].(float64), args[1].(byte), args[2].(int), args[3].(int))
-}
-
-func ext۰strings۰Count(fr *frame, args []value) value {
-	return strings.Count(args[0].(string), args[1].(string))
-}
-
-func ext۰strings۰EqualFold(fr *frame, args []value) value {
-	return strings.EqualFold(args[0].(string), args[1].(string))
-}
-func ext۰strings۰IndexByte(fr *frame, args []value) value {
-	return strings.IndexByte(args[0].(string), args[1].(byte))
-}
-
-func ext۰strings۰Index(fr *frame, args []value) value {
-	return strings.Index(args[0].(string), args[1].(string))
-}
-
-func ext۰strings۰Replace(fr *frame, args []value) value {
-	// func Replace(s, old, new string, n int) string
-	s := args[0].(string)
-	new := args[1].(string)
-	old := args[2].(string)
-	n := args[3].(int)
-	return strings.Replace(s, old, new, n)
-}
-
-func ext۰strings۰ToLower(fr *frame, args []value) value {
-	return strings.ToLower(args[0].(string))
-}
-
-func ext۰runtime۰GOMAXPROCS(fr *frame, args []value) value {
-	// Ignore args[0]; don't let the interpreted program
-	// set the interpreter's GOMAXPROCS!
-	return runtime.GOMAXPROCS(0)
-}
-
-func ext۰runtime۰Goexit(fr *frame, args []value) value {
-	// TODO(adonovan): don't kill the interpreter's main goroutine.
-	runtime.Goexit()
-	return nil
-}
-
-func ext۰runtime۰GOROOT(fr *frame, args []value) value {
-	return runtime.GOROOT()
-}
-
-func ext۰runtime۰GC(fr *frame, args []value) value {
-	runtime.GC()
-	return nil
-}
-
-func ext۰runtime۰Gosched(fr *frame, args []value) value {
-	runtime.Gosched()
-	return nil
-}
-
-func ext۰runtime۰NumCPU(fr *frame, args []value) value {
-	return runtime.NumCPU()
-}
-
-func ext۰time۰Sleep(fr *frame, args []value) value {
-	time.Sleep(time.Duration(args[0].(int64)))
-	return nil
-}
-
-func ext۰os۰Getenv(fr *frame, args []value) value {
-	name := args[0].(string)
-	switch name {
-	case "GOSSAINTERP":
-		return "1"
-	}
-	return os.Getenv(name)
-}
-
-func ext۰os۰Exit(fr *frame, args []value) value {
-	panic(exitPanic(args[0].(int)))
-}
-
-func ext۰unicode۰utf8۰DecodeRuneInString(fr *frame, args []value) value {
-	r, n := utf8.DecodeRuneInString(args[0].(string))
-	return tuple{r, n}
-}
-
-// A fake function for turning an arbitrary value into a string.
-// Handles only the cases needed by the tests.
-// Uses same logic as 'print' built-in.
-func ext۰fmt۰Sprint(fr *frame, args []value) value {
-	buf := new(bytes.Buffer)
-	wasStr := false
-	for i, arg := range args[0].([]value) {
-		x := arg.(iface).v
-		_, isStr := x.(string)
-		if i > 0 && !wasStr && !isStr {
-			buf.WriteByte(' ')
+		if w.hasMethod(itf.t, "Error") == nil && w.hasMethod(itf.t, "String") == nil {
+			return v
 		}
-		wasStr = isStr
-		buf.WriteString(toString(x))
+	case sym:
+		return rawString("<sym>")
 	}
-	return buf.String()
+	for _, m := range []string{"Error", "String"} {
+		if fn := w.hasMethod(itf.t, m); fn != nil && fn.Signature.Params().Len() == 0 && fn.Signature.Results().Len() == 1 {
+			if b, ok := fn.Signature.Results().At(0).Type().Underlying().(*types.Basic); ok && b.Kind() == types.String {
+				if p, ok := itf.v.(*value); ok && p == nil {
+					return rawString("<nil>")
+				}
+				r := call(w, fr, token.NoPos, fn, []value{itf.v})
+				if s, ok := r.(string); ok {
+					return rawString(s)
+				}
+			}
+		}
+	}
+	if b, ok := itf.v.([]value); ok {
+		if sl, ok := itf.t.Underlying().(*types.Slice); ok {
+			if bt, ok := sl.Elem().Underlying().(*types.Basic); ok && bt.Kind() == types.Uint8 {
+				allc := true
+				for _, e := range b {
+					if _, ok := e.(byte); !ok {
+						allc = false
+					}
+				}
+				if allc {
+					return bytesOf(b)
+				}
+			}
+		}
+	}
+	return rawString(toString(itf.v))
+}
+
+func (w *world) writeTo(fr *frame, wr iface, s string) value {
+	r := w.callMethod(fr, wr, "Write", valuesOfBytes([]byte(s)))
+	return r
+}
+
+func (w *world) unwrapErr(fr *frame, err iface) []iface {
+	fn := w.hasMethod(err.t, "Unwrap")
+	if fn == nil || fn.Signature.Params().Len() != 0 || fn.Signature.Results().Len() != 1 {
+		return nil
+	}
+	r := call(w, fr, token.NoPos, fn, []value{err.v})
+	switch r := r.(type) {
+	case iface:
+		if r.t == nil {
+			return nil
+		}
+		return []iface{r}
+	case []value:
+		var out []iface
+		for _, e := range r {
+			if ei := e.(iface); ei.t != nil {
+				out = append(out, ei)
+			}
+		}
+		return out
+	}
+	return nil
+}
+
+func (w *world) errorsIs(fr *frame, err, target iface) bool {
+	if err.t == nil || target.t == nil {
+		return err.t == nil && target.t == nil
+	}
+	comparable := types.Comparable(target.t)
+	var is func(err iface) bool
+	is = func(err iface) bool {
+		if comparable && sameType(err.t, target.t) && equals(err.t, err.v, target.v) {
+			return true
+		}
+		if fn := w.hasMethod(err.t, "Is"); fn != nil && fn.Signature.Params().Len() == 1 && fn.Signature.Results().Len() == 1 {
+			if w.concreteBool(call(w, fr, token.NoPos, fn, []value{err.v, target})) {
+				return true
+			}
+		}
+		for _, u := range w.unwrapErr(fr, err) {
+			if is(u) {
+				return true
+			}
+		}
+		return false
+	}
+	return is(err)
+}
+
+func (w *world) errorsAs(fr *frame, err, target iface) bool {
+	if err.t == nil {
+		return false
+	}
+	if target.t == nil {
+		panic(targetPanic{iface{t: types.Typ[types.String], v: "errors: target cannot be nil"}})
+	}
+	pt, ok := target.t.Underlying().(*types.Pointer)
+	if !ok {
+		panic(targetPanic{iface{t: types.Typ[types.String], v: "errors: target must be a non-nil pointer"}})
+	}
+	elemT := pt.Elem()
+	cell := target.v.(*value)
+	var as func(err iface) bool
+	as = func(err iface) bool {
+		if it, ok := elemT.Underlying().(*types.Interface); ok {
+			if types.Implements(err.t, it) {
+				*cell = err
+				return true
+			}
+		} else if types.Identical(err.t, elemT) {
+			store(elemT, cell, err.v)
+			return true
+		}
+		if fn := w.hasMethod(err.t, "As"); fn != nil && fn.Signature.Params().Len() == 1 {
+			if w.concreteBool(call(w, fr, token.NoPos, fn, []value{err.v, target})) {
+				return true
+			}
+		}
+		for _, u := range w.unwrapErr(fr, err) {
+			if as(u) {
+				return true
+			}
+		}
+		return false
+	}
+	return as(err)
 }
